@@ -85,8 +85,13 @@ def run(ctx):
     rng.shuffle(plot3)
     if not thorough:
         plot3 = plot3[:1200]
-    ctx.note("three_step_histories", {"trees": len(tree3), "plot": len(plot3)})
-    hs = hs + tree3 + plot3
+    # ... and with the cache / override flags on one representative conversion per kind plus the data conversions
+    flag3 = gc.generate(ctx, ["plot1", "data", "flags"], 3, [], "all histories of three flagged conversions on one grid", handles=(1,), base=(1,), workers=8)
+    rng.shuffle(flag3)
+    if not thorough:
+        flag3 = flag3[:1200]
+    ctx.note("three_step_histories", {"trees": len(tree3), "plot": len(plot3), "flags": len(flag3)})
+    hs = hs + tree3 + plot3 + flag3
     long_hs = gc.generate(
         ctx,
         READ_FAMS + ["flags", "metrics"],
